@@ -51,7 +51,13 @@ func Defects(t M) []Mutation {
 	if pv, ok := prevVersion[min]; ok {
 		add("version-too-old", Path{"cdiVersion"}, "set", pv, inv)
 		add("version-too-old", Path{"cdiVersion"}, "set", "0.3.0", inv)
+		// the same, spelled with a leading "v": whether one reads "v0.5.0" as 0.5.0 or as no released
+		// version at all, it is not a released version that is new enough
+		add("version-too-old-spelled-with-v", Path{"cdiVersion"}, "set", "v"+pv, inv)
+		add("version-too-old-spelled-with-v", Path{"cdiVersion"}, "set", "v0.3.0", inv)
 	}
+	add("version-too-old-spelled-with-v", Path{"cdiVersion"}, "set", "v0.1.0", inv)
+	add("version-too-old-spelled-with-v", Path{"cdiVersion"}, "set", "v0.2.0", inv)
 	// versions older than anything a Spec can require (the minimum is never below 0.3.0)
 	add("version-too-old", Path{"cdiVersion"}, "set", "0.1.0", inv)
 	add("version-too-old", Path{"cdiVersion"}, "set", "0.2.0", inv)
